@@ -331,10 +331,15 @@ pub fn sync_point(name: &'static str) {
         s.pause(tid, name);
         return;
     }
-    let n = PERTURB.with(|p| p.borrow_mut().as_mut().map(|r| r.below(4)));
+    let n = PERTURB.with(|p| p.borrow_mut().as_mut().map(|r| r.below(8)));
     if let Some(n) = n {
-        for _ in 0..n {
-            std::thread::yield_now();
+        // widen the race windows: mostly a few yields, sometimes a short sleep
+        if n >= 6 {
+            std::thread::sleep(std::time::Duration::from_micros(40 * (n - 5)));
+        } else {
+            for _ in 0..n {
+                std::thread::yield_now();
+            }
         }
     }
 }
